@@ -277,3 +277,142 @@ func ContainsDeep(p *Prog, ins, target ssa.Instruction) bool {
 	}
 	return false
 }
+
+// ---------------------------------------------------------------- calling context of extracted helpers
+
+// helperSites returns the call sites of f when f is an unexported top-level function or method all of
+// whose invocations are plain synchronous calls inside the repo (an "extracted helper"); ok is false otherwise.
+func helperSites(p *Prog, f *ssa.Function) ([]Site, bool) {
+	if f == nil || f.Parent() != nil {
+		return nil, false
+	}
+	if o := f.Object(); o == nil || o.Exported() {
+		return nil, false
+	}
+	sites, complete := CallSites(p, f)
+	if !complete || len(sites) == 0 {
+		return nil, false
+	}
+	for _, s := range sites {
+		if s.Kind != "call" || s.Caller == f {
+			return nil, false
+		}
+	}
+	return sites, true
+}
+
+// HoldsInCtx reports whether pred holds at block b or, when b's function is an extracted helper,
+// at every one of its call sites (transitively): a guard that dominated the code before it was
+// moved into a helper still dominates every execution of it.
+func HoldsInCtx(p *Prog, b *ssa.BasicBlock, pred func(*ssa.BasicBlock) bool) bool {
+	return holdsInCtx(p, b, pred, 0)
+}
+
+func holdsInCtx(p *Prog, b *ssa.BasicBlock, pred func(*ssa.BasicBlock) bool, depth int) bool {
+	if pred(b) {
+		return true
+	}
+	if depth > 4 {
+		return false
+	}
+	sites, ok := helperSites(p, b.Parent())
+	if !ok {
+		return false
+	}
+	for _, s := range sites {
+		if !holdsInCtx(p, s.Instr.Block(), pred, depth+1) {
+			return false
+		}
+	}
+	return true
+}
+
+// HelperRoot returns the function on whose behalf f runs: f itself, or - when f is an extracted
+// helper all of whose call sites lie (transitively) in one function - that function.
+func HelperRoot(p *Prog, f *ssa.Function) *ssa.Function {
+	for depth := 0; depth < 5; depth++ {
+		sites, ok := helperSites(p, f)
+		if !ok {
+			return f
+		}
+		root := sites[0].Caller
+		for root.Parent() != nil {
+			root = root.Parent()
+		}
+		for _, s := range sites[1:] {
+			c := s.Caller
+			for c.Parent() != nil {
+				c = c.Parent()
+			}
+			if c != root {
+				return f
+			}
+		}
+		f = root
+	}
+	return f
+}
+
+// HelpersOf returns the extracted helpers (transitively) called from the given functions.
+func HelpersOf(p *Prog, roots []*ssa.Function) []*ssa.Function {
+	seen := map[*ssa.Function]bool{}
+	for _, r := range roots {
+		seen[r] = true
+	}
+	var out []*ssa.Function
+	work := append([]*ssa.Function{}, roots...)
+	for len(work) > 0 {
+		f := work[len(work)-1]
+		work = work[:len(work)-1]
+		InstrsDeep(f, func(_ *ssa.Function, ins ssa.Instruction) {
+			call, ok := ins.(*ssa.Call)
+			if !ok {
+				return
+			}
+			g := Callee(&call.Call)
+			if g == nil || seen[g] || !p.InRepo(g) {
+				return
+			}
+			if _, isHelper := helperSites(p, g); !isHelper {
+				return
+			}
+			seen[g] = true
+			out = append(out, g)
+			work = append(work, g)
+		})
+	}
+	return out
+}
+
+// ParamActuals returns, for a parameter of an extracted helper, the actual argument and the
+// instantiated callee at each call site (nil when the parameter's function is not such a helper).
+type Actual struct {
+	Arg    ssa.Value
+	Callee *ssa.Function // the (possibly instantiated) static callee at the site
+}
+
+func ParamActuals(p *Prog, prm *ssa.Parameter) []Actual {
+	f := prm.Parent()
+	sites, ok := helperSites(p, f)
+	if !ok {
+		return nil
+	}
+	idx := -1
+	for i, q := range f.Params {
+		if q == prm {
+			idx = i
+		}
+	}
+	if idx < 0 {
+		return nil
+	}
+	var out []Actual
+	for _, s := range sites {
+		call, isC := s.Instr.(*ssa.Call)
+		if !isC || idx >= len(call.Call.Args) {
+			return nil
+		}
+		out = append(out, Actual{call.Call.Args[idx], call.Call.StaticCallee()})
+	}
+	return out
+}
